@@ -13,6 +13,47 @@ ASSUMPTIONS = ["FDE ranges pairwise disjoint, non-empty, starts within 4 GiB abo
                "the .eh_frame_hdr table lists every FDE sorted by start (producer contract)"]
 TRUSTED_BASE = ["modelled not verified: gimli (EhHdrTable::lookup by contract, FDE parsing), slice::sort_by_key, binary_search"]
 
+def empty_twin_scripts(rng):
+    out = []
+    # empty FDEs (length 0: what linkers leave behind for discarded COMDAT / ICF-folded functions) that share their
+    # start with the real function emitted AFTER them: the FDE covering an address inside that function is the real
+    # one. framehop's own index (.eh_frame alone, .debug_frame) keeps the section order among equal starts (a stable
+    # sort) and takes the last entry at or below the address; 48 such pairs, the pairs themselves in shuffled order
+    # (seeded changes C01-17 / C12-12 dropped entries with equal starts, C01-18 sorted unstably - which shows only
+    # beyond 20 unsorted entries)
+    for ai, arch in enumerate(("x86", "a64")):
+        gran = 8 if arch == "x86" else 16
+        s = Script(arch, "may" if ai == 0 else "must")
+        npairs = 48
+        fdes = []
+        for i in range(npairs):
+            st = 0x1000 + 0x40 * i
+            fdes.append(dict(start=st, len=0, rows=[(0, suites.std_row(arch, "frameless", 2))]))                 # 2i: empty
+            fdes.append(dict(start=st, len=0x30, rows=[(0, suites.std_row(arch, "frameless", 3 + i % 50))]))   # 2i+1: real
+        pairs = list(range(npairs))
+        rng.shuffle(pairs)
+        order = [x for i in pairs for x in (2 * i, 2 * i + 1)]
+        bases = {}
+        for j, pres in enumerate(("eh", "debug")):
+            ba = 0x10000000 * (j + 1)
+            s.module_dwarf("D%d" % j, ba, ba + 0x2000, ba, 0, pres, fdes, rng, order=order)
+            bases[pres] = ba
+        s.mem("S", [(0x7000 + 8 * i, 0x50000 + i) for i in range(250)] + [(0x7800, 0x7900), (0x7808, 0x66666)])
+        s.add("new U"); s.add("add U D0"); s.add("add U D1")
+        for i in range(npairs):
+            for pres in ("eh", "debug"):
+                for rel in (1, 0x2f):
+                    kind = "ip" if (i + rel) % 2 == 0 else "ra"
+                    a = bases[pres] + 0x1000 + 0x40 * i + rel
+                    sp = 0x7000 + gran * rng.range(0, 4)
+                    regs = s.regs_x86(a, sp, 0x7800) if arch == "x86" else s.regs_a64(M64, 0x4444, sp, 0x7800)
+                    s.add("newcache C")
+                    ln = s.add("unwind U C %s %s %s S" % (kind, hx(a if kind == "ip" else a + 1), regs), tag="%s:%s:empty-twin:%s" % (arch, pres, kind))
+                    s.meta[ln] = {"twin_real": 3 + i % 50, "sp": sp, "arch": arch}
+        s.nomodel = True
+        out.append(("empty-twins-%s" % arch, s))
+    return out
+
 def generate(rng, tier):
     out = []
     sizes = [0, 1, 2, 3, 7, 40, 200] if tier == "quick" else [0, 1, 2, 3, 5, 17, 100, 300] * 6 + [800, 1500, 4000]
@@ -85,11 +126,25 @@ def generate(rng, tier):
         if nf > 400:
             s.nomodel = True        # the extracted model rebuilds and sorts the index on every call: judged only (triple oracle)
         out.append(("fdeset-%s-%d-%d" % (arch, nf, idx), s))
+    out += empty_twin_scripts(rng)
     return out
+
+def judge_twin_real(ln, m, impl, bad):
+    line = impl.get(ln)
+    if line is None:
+        return
+    rg = vlib.regs_of(line); o = vlib.outcome(line)
+    gran = 8 if m["arch"] == "x86" else 16
+    nsp = (rg[8] if m["arch"] == "x86" else rg[2]) if rg else None
+    if o[:2] != ("ok", "some") or nsp is None or nsp - m["sp"] != gran * m["twin_real"]:
+        bad.append((ln, "address inside a function whose FDE follows an empty FDE with the same start: the covering FDE was not the one consulted: %s" % line[:300]))
 
 def judge(script, impl):
     bad = []
     for ln, m in script.meta.items():
+        if "twin_real" in m:
+            judge_twin_real(ln, m, impl, bad)
+            continue
         if "trio" not in m:
             continue
         res = [impl.get(x) for x in m["trio"]]
